@@ -141,3 +141,31 @@ void h_tp_round(void) { VF_INPUT(int, c); __CPROVER_assume(c >= -131072 && c <= 
   VF_ASSERT((I)tp_cast(c) == s_trunc64(num, 1000), "time_point_cast truncates toward zero like duration_cast");
   VF_ASSERT((I)tp_floor(c) == s_floor64(num, 1000) && (I)tp_ceil(c) == s_ceil64(num, 1000) && (I)tp_round(c) == s_round64(num, 1000), "floor/ceil/round of a time_point act on its duration");
   VF_REACH(); }
+
+/*@COMMON@*/
+/* ---- all six time_point relations across periods, both operand orders */
+#define TP_REL_BODY(ASSUME) VF_INPUT(int, a); VF_INPUT(int, b); I x = (I)a, y = (I)b * 1000; __CPROVER_assume(FITS(y, IMIN, IMAX)); ASSUME; \
+  VF_ASSERT(tpx_lt(a, b) == (x < y) && tpx_le(a, b) == (x <= y) && tpx_gt(a, b) == (x > y) && tpx_ge(a, b) == (x >= y) && tpx_eq(a, b) == (x == y) && tpx_ne(a, b) == (x != y), "time_point<ms> OP time_point<s>: exact comparison in the common duration"); \
+  VF_ASSERT(tpy_lt(b, a) == (y < x) && tpy_le(b, a) == (y <= x) && tpy_gt(b, a) == (y > x) && tpy_ge(b, a) == (y >= x) && tpy_eq(b, a) == (y == x) && tpy_ne(b, a) == (y != x), "time_point<s> OP time_point<ms>: exact comparison in the common duration"); \
+  VF_REACH();
+/*@GROUP name=tp_relations props=C12,C02 kind=B bound=|seconds|<=4096,|ms|<2^23 solver=kissat@*/
+void h_tp_relations(void) { TP_REL_BODY(__CPROVER_assume(b >= -4096 && b <= 4096 && a > -(1 << 23) && a < (1 << 23))) }
+/*@GROUP name=tp_relations_full props=C12,C02 kind=F solver=kissat tier=thorough timeout=1800@*/
+void h_tp_relations_full(void) { TP_REL_BODY((void)0) }
+
+/* ---- unsigned representations: floor/ceil/round (the defining differences must not wrap) */
+/*@GROUP name=unsigned_rounding props=C12,C02 kind=F solver=kissat@*/
+void h_unsigned_rounding(void) { VF_INPUT(unsigned short, c); I n = c;
+  VF_ASSERT((I)u_ms_s_cast(c) == n / 1000 && (I)u_ms_s_floor(c) == n / 1000, "duration_cast / floor<seconds>(duration<uint16_t, milli>)");
+  VF_ASSERT((I)u_ms_s_ceil(c) == (n + 999) / 1000, "ceil<seconds>(duration<uint16_t, milli>)");
+  VF_ASSERT((I)u_ms_s_round(c) == s_round64(n, 1000), "round<seconds>(duration<uint16_t, milli>): nearest, ties to even (no wrap in the unsigned differences)");
+  VF_REACH(); }
+/*@GROUP name=unsigned_rounding_min props=C12,C02 kind=F solver=kissat@*/
+void h_unsigned_rounding_min(void) { VF_INPUT(unsigned short, c); I n = c;
+  VF_ASSERT((I)u_s_min_floor(c) == n / 60, "floor<minutes>(duration<uint16_t>)");
+  if ((n / 60 + 1) * 60 <= 65535) { VF_ASSERT((I)u_s_min_ceil(c) == (n + 59) / 60, "ceil<minutes>(duration<uint16_t>)"); VF_ASSERT((I)u_s_min_round(c) == s_round64(n, 60), "round<minutes>(duration<uint16_t>)"); }
+  VF_REACH(); }
+/*@GROUP name=unsigned_rounding32 props=C12,C02 kind=B bound=count<2^20 solver=kissat@*/
+void h_unsigned_rounding32(void) { VF_INPUT(unsigned, w); __CPROVER_assume(w < (1u << 20)); I m = w;
+  VF_ASSERT((I)u32_ms_s_floor(w) == m / 1000 && (I)u32_ms_s_ceil(w) == (m + 999) / 1000 && (I)u32_ms_s_round(w) == s_round64(m, 1000), "floor/ceil/round<seconds>(duration<uint32_t, milli>)");
+  VF_REACH(); }
